@@ -4,24 +4,27 @@ import checklib as C
 from props import common
 from props.common import PRED
 
-MODULE = "Rspirv.Props.C16"
+MODULE = "Rspirv.Props.C16All"
 THEOREMS = ["Rspirv.Props.C16.covers_ok", "Rspirv.Props.C16.locationDebug_ok", "Rspirv.Props.C16.nonLocationDebug_ok",
             "Rspirv.Props.C16.annotation_ok", "Rspirv.Props.C16.type_ok", "Rspirv.Props.C16.constant_ok",
             "Rspirv.Props.C16.variable_ok", "Rspirv.Props.C16.return_ok", "Rspirv.Props.C16.abort_ok",
             "Rspirv.Props.C16.branch_ok", "Rspirv.Props.C16.rows_ok", "Rspirv.Props.C16.C16_base",
-            "Rspirv.Props.C16.C16_derived", "Rspirv.Props.C16.C16_covers"]
+            "Rspirv.Props.C16.C16_derived", "Rspirv.Props.C16.C16_covers",
+            # the Builder clause: every generated method ends the block iff the predicate accepts its opcode
+            "Rspirv.Props.C06.methods_ok", "Rspirv.Props.C06.C06_terminators", "Rspirv.Props.C06.terminators_covered"]
+NEEDS = ("header", "core", "decode", "operand_enum", "asm_arms", "parse_operand", "operands", "builder", "traversals")
 
 
 def run(ctx):
     T, ext = common.stage_translate_and_extract(ctx)
-    have = C.need(ctx, "header", "core")
+    have = C.need(ctx, *NEEDS)
     if ext is None:
         ctx.issue("harness-build", "the harness no longer builds against the working tree: " + ctx.data.get("harness_error", "")[-400:])
         return C.finish(ctx)
     failing = []
     if have:
         with C.Lock():
-            failing = C.prove(ctx, MODULE, THEOREMS, files=["Rspirv/Props/C16.lean", "Rspirv/Reference/SpecClass.lean"])
+            failing = C.prove(ctx, MODULE, THEOREMS, files=["Rspirv/Props/C16.lean", "Rspirv/Props/C06.lean", "Rspirv/Reference/SpecClass.lean"])
     diffs = common.c16_diff(ext)
     for i, o, name, exp, obs in diffs:
         ctx.issue(f"C16:{PRED[i]}:{name}",
@@ -37,7 +40,19 @@ def run(ctx):
     for o, b in rowbad[:10]:
         ctx.issue(f"C16:row:{names.get(o, o)}", "derived predicate is not the documented union, or two base classes overlap",
                   witness={"opcode": o, "bits": dict(zip(PRED, b))}, found_input=True, kind="oracle")
-    explained = bool(diffs or rowbad)
+    # the Builder clause: which generated method ends (or does not end) the block against the predicate's verdict
+    from props import c06diag
+    bdiag = []
+    if have and "builder" in T:
+        kn6 = common.known("C06")
+        for name, why in c06diag.diagnose(T, ext):
+            if "end_block" in why or "('term'" in why:      # the method ends the block xor the predicate accepts the opcode
+                if f"C06:method:{name}" in kn6:
+                    continue
+                bdiag.append((name, why))
+                ctx.issue(f"C16:builder:{name}", f"Builder::{name}: {why}", witness={"method": name, "reason": why,
+                          "replay": f"call Builder::{name} in an open block and look at selected_block()"}, found_input=True, kind="oracle")
+    explained = bool(diffs or rowbad or bdiag)
     for n, e in failing:
         ctx.log(f"obligation failed: {n}: {e['msg'][:120]}")
         if not explained:
